@@ -5,6 +5,7 @@
   hint_object (writes into a nil map).  Full statements, partial theorems, counterexamples.
 -/
 import Cog.Xform.Proofs.ObjLocal
+import Cog.Xform.Proofs.SortDefaults
 namespace Cog.Xform
 open Cog.IR
 
@@ -172,12 +173,18 @@ def targets (p : Params) (_ : Schema) (o : Obj) : Bool :=
   | .struct fs _ _ _ => fs.any fun f => p.defaults.any (entryMatches o f)
   | _ => false
 
+/-- documented behaviour (doc comment of the pass): the references are examined in sorted order
+    (package, object, field); every field takes the value of the last reference accepting it;
+    nothing else of the field or the object changes -/
+def specObj (p : Params) (o : Obj) : Obj := onObj (sorted p) o
+
+def spec (p : Params) (S : Schemas) : Schemas := mapObjs (specObj p) S
+
 theorem onObj_name (p : Params) (o : Obj) : (onObj p o).name = o.name := by
   unfold onObj; split <;> rfl
 
-/-- what the code does for a given iteration order of the map -/
-theorem model (p : Params) (S S' : Schemas) (hw : WF S) (h : run p S = .ok S') :
-    S' = mapObjs (onObj p) S := objLocal_correct (onObj p) (onObj_name p) S S' hw h
+theorem correct (p : Params) (S S' : Schemas) (hw : WF S) (h : run p S = .ok S') : S' = spec p S :=
+  objLocal_correct (onObj (sorted p)) (onObj_name (sorted p)) S S' hw h
 
 theorem setDefault_name (v : Val) (f : Field) : (setDefault v f).name = f.name := rfl
 
@@ -208,33 +215,44 @@ theorem onField_nomatch (p : Params) (o : Obj) (f : Field)
     exact this hm
   rw [this]; rfl
 
-theorem untargeted (p : Params) (s : Schema) (o : Obj) (h : targets p s o = false) : onObj p o = o := by
-  unfold onObj
+theorem any_sorted (p : Params) (q : FieldRef × Val → Bool) : (sorted p).defaults.any q = p.defaults.any q := by
+  apply Bool.eq_iff_iff.mpr
+  simp only [List.any_eq_true, sorted, mem_sortDefaults]
+
+theorem untargeted (p : Params) (s : Schema) (o : Obj) (h : targets p s o = false) : specObj p o = o := by
+  unfold specObj onObj
   unfold targets at h
   cases hty : o.ty <;> simp only [hty] at h ⊢
   rename_i fs g gi m
-  have : fs.map (onField p o) = fs := by
+  have : fs.map (onField (sorted p) o) = fs := by
     apply map_id_of_forall
     intro f hf
-    exact onField_nomatch p o f (List.any_eq_false.mp h f hf |> fun x => by simpa using x)
+    apply onField_nomatch
+    rw [any_sorted]
+    simpa using List.any_eq_false.mp h f hf
   rw [this, ← hty]
 
 theorem frame (p : Params) (S S' : Schemas) (hw : WF S) (h : run p S = .ok S') :
     FrameOK (targets p) (fun _ => false) S S' := by
-  rw [model p S S' hw h]; exact mapObjs_frame _ _ (untargeted p) S
+  rw [correct p S S' hw h]; exact mapObjs_frame _ _ (untargeted p) S
 
 theorem absent (p : Params) (S S' : Schemas) (hw : WF S) (hn : NoTarget (targets p) S)
     (h : run p S = .ok S') : S' = S := by
-  rw [model p S S' hw h]; exact mapObjs_absent _ _ (untargeted p) S hn
+  rw [correct p S S' hw h]; exact mapObjs_absent _ _ (untargeted p) S hn
 
 theorem wf (p : Params) (S S' : Schemas) (hw : WF S) (h : run p S = .ok S') : WF S' := by
-  rw [model p S S' hw h]; exact mapObjs_wf _ (onObj_name p) S hw
+  rw [correct p S S' hw h]; exact mapObjs_wf _ (onObj_name (sorted p)) S hw
 
-/-- the full statement: `defaults` is a YAML mapping / Go map, it has no order, so the outcome
-    must not depend on the order in which the entries are met -/
-def full : Prop := ∀ (p p' : Params) (S : Schemas), p'.defaults.Perm p.defaults → run p' S = run p S
+/-- `defaults` is a YAML mapping / Go map: the outcome does not depend on the order in which the
+    map iteration delivers its (distinct) keys -/
+theorem order_independent (p p' : Params) (S : Schemas) (hp : p'.defaults.Perm p.defaults)
+    (hk : (p.defaults.map (·.1)).Nodup) : run p' S = run p S := by
+  have : sorted p' = sorted p := by simp only [sorted, sortDefaults_perm p.defaults p'.defaults hp hk]
+  simp only [run, apply, this]
+  rfl
 
-/-- decidable hypothesis: no field is accepted by two entries -/
+/-- when no field is accepted by two references, the sorting does not matter either: the result
+    is that of any order -/
 def unambiguousObj (p : Params) (o : Obj) : Bool :=
   match o.ty with
   | .struct fs _ _ _ => fs.all fun f => decide ((p.defaults.filter (entryMatches o f)).length ≤ 1)
@@ -243,52 +261,12 @@ def unambiguousObj (p : Params) (o : Obj) : Bool :=
 def unambiguous (p : Params) (S : Schemas) : Bool :=
   S.all fun s => s.objects.all fun kv => unambiguousObj p kv.2
 
-theorem perm_short_eq {α : Type} {a b : List α} (h : a.Perm b) (hl : b.length ≤ 1) : a = b := by
-  match b, hl with
-  | [], _ => exact List.Perm.eq_nil h
-  | [x], _ => exact List.perm_singleton.mp h
-
-theorem onField_perm (p p' : Params) (o : Obj) (f : Field) (hp : p'.defaults.Perm p.defaults)
-    (hu : (p.defaults.filter (entryMatches o f)).length ≤ 1) : onField p' o f = onField p o f := by
-  unfold onField
-  rw [foldl_filter o f p'.defaults f rfl, foldl_filter o f p.defaults f rfl]
-  rw [perm_short_eq (hp.filter (entryMatches o f)) hu]
-
-theorem onObj_perm (p p' : Params) (o : Obj) (hp : p'.defaults.Perm p.defaults)
-    (hu : unambiguousObj p o = true) : onObj p' o = onObj p o := by
-  unfold onObj
-  unfold unambiguousObj at hu
-  cases hty : o.ty <;> simp only [hty] at hu ⊢
-  rename_i fs g gi m
-  have : fs.map (onField p' o) = fs.map (onField p o) := by
-    apply List.map_congr_left
-    intro f hf
-    have := List.all_eq_true.mp hu f hf
-    exact onField_perm p p' o f hp (by simpa using this)
-  rw [this]
-
-theorem order_independent_partial (p p' : Params) (S : Schemas) (hp : p'.defaults.Perm p.defaults)
-    (hu : unambiguous p S = true) : run p' S = run p S := by
-  unfold run
-  have hf : fail? p' S = fail? p S := rfl
-  rw [hf]
-  congr 1
-  unfold apply
-  apply List.map_congr_left
-  intro s hs
-  have h1 := List.all_eq_true.mp hu s hs
-  simp only [visitSchema]
-  congr 1
-  apply rebuild_congr
-  intro kv hkv
-  exact onObj_perm p p' kv.2 hp (List.all_eq_true.mp h1 kv hkv)
-
-/-! witness: keys `p.A.a` and `p.a.A` both accept field `a` of object `A` -/
+/-! witness of "the last reference in sorted order wins": keys `p.A.a` and `p.a.A` both accept
+    field `a` of object `A` -/
 def wA : Obj :=
   { name := "A", selfPkg := "p", selfName := "A", ty := .struct [{ name := "a", ty := .scalar "string" .nil [] freshMeta, required := true }] [] none freshMeta }
 def wSchemas : Schemas := [{ pkg := "p", objects := [("A", wA)] }]
-def wP : Params := { defaults := [(⟨"p", "A", "a"⟩, .str "x"), (⟨"p", "a", "A"⟩, .str "y")] }
-def wP' : Params := { defaults := [(⟨"p", "a", "A"⟩, .str "y"), (⟨"p", "A", "a"⟩, .str "x")] }
+def wP : Params := { defaults := [(⟨"p", "a", "A"⟩, .str "y"), (⟨"p", "A", "a"⟩, .str "x")] }
 
 def probeOut : Outcome Schemas → List (List (List String))
   | .ok S => S.map fun s => s.objects.map fun kv =>
@@ -297,12 +275,7 @@ def probeOut : Outcome Schemas → List (List (List String))
     | _ => []
   | _ => []
 
-theorem counterexample : ¬ full := by
-  intro hfull
-  have h := hfull wP wP' wSchemas (List.Perm.swap _ _ _)
-  have := congrArg probeOut h
-  revert this
-  decide
+example : probeOut (run wP wSchemas) = [[["y"]]] := by decide
 
 end FieldsSetDefault
 
@@ -503,6 +476,16 @@ def wSchemas : Schemas := [{ pkg := "p", objects := [("A", wO)] }]
 def wP : Params := { object := ⟨"p", "A"⟩, hints := [("kind", .str "x")] }
 
 def isOk : Outcome Schemas → Bool | .ok _ => true | _ => false
+def isPanic : Outcome Schemas → Bool | .panic _ => true | _ => false
+
+/-- how such an object arises through the public API: `retype_object` with a YAML `as:` (whose
+    `Hints` map is nil), then `hint_object` on it — `Passes.Process` panics -/
+def wS0 : Schemas := [{ pkg := "p", objects := [("A", { wO with ty := .scalar "bool" .nil [] freshMeta })] }]
+def wRetype : RetypeObject.Params :=
+  { object := ⟨"p", "A"⟩, as_ := .scalar "string" .nil [] (Meta.nilHints {}), comments := none }
+
+theorem counterexample_reachable :
+    isPanic (process [.retypeObject wRetype, .hintObject wP] wS0) = true := by decide
 
 theorem counterexample : ¬ total_full := by
   intro hfull
